@@ -190,11 +190,7 @@ func (s *OutlineServer) runConfig(config Config) (func() error, error) {
 			manager:            s.lnManager,
 			listenerCloseFuncs: make(map[string]func() error),
 		}
-		defer func() {
-			stopErrCh <- lnSet.Close()
-		}()
-
-		startErrCh <- func() error {
+		startErr := func() error {
 			totalCipherCount := len(config.Keys)
 			portCiphers := make(map[int]*list.List) // Values are *List of *CipherEntry.
 			for _, keyConfig := range config.Keys {
@@ -281,8 +277,19 @@ func (s *OutlineServer) runConfig(config Config) (func() error, error) {
 			s.serverMetrics.SetNumAccessKeys(totalCipherCount, lnSet.Len())
 			return nil
 		}()
+		if startErr != nil {
+			// Nothing of a config that failed to start may stay behind: close the
+			// listeners it had already acquired, which also ends the services on them.
+			if err := lnSet.Close(); err != nil {
+				slog.Warn("Failed to clean up config that failed to start.", "err", err)
+			}
+			startErrCh <- startErr
+			return
+		}
+		startErrCh <- nil
 
 		<-stopCh
+		stopErrCh <- lnSet.Close()
 	}()
 
 	err := <-startErrCh
